@@ -192,3 +192,7 @@ impl Display for Formatted<'_, Color> {
         }
     }
 }
+
+#[cfg(kani)]
+#[path = "/verif/kani/colors.rs"]
+mod kani_verif;
